@@ -182,7 +182,7 @@ pub fn run(ctx: &Ctx, rep: &mut Report) {
                 }
             }
             // random strings: fully random, and letters with padded tails
-            for i in 0..ctx.budget(if long { 40 } else { 1500 }, if long { 2000 } else { 100_000 }) {
+            for i in 0..ctx.budget(if long { 150 } else { 10_000 }, if long { 3000 } else { 200_000 }) {
                 let mut bits = fresh(b, &mut r);
                 if i % 2 == 0 {
                     let tail = r.usize(0, k);
